@@ -8,7 +8,7 @@ use serde_json::{json, Value};
 use std::collections::BTreeMap;
 use std::sync::Mutex;
 
-#[derive(Clone, Copy, PartialEq, Eq, PartialOrd, Ord, Debug)]
+#[derive(Clone, Copy, PartialEq, Eq, PartialOrd, Ord, Debug, Hash)]
 pub enum Printer {
     Display,
     Debug,
@@ -21,7 +21,7 @@ impl Printer {
         }
     }
 }
-#[derive(Clone, Copy, PartialEq, Eq, PartialOrd, Ord, Debug)]
+#[derive(Clone, Copy, PartialEq, Eq, PartialOrd, Ord, Debug, Hash)]
 pub enum Form {
     /// `IDLArgs` printed, `parse_idl_args`, `IDLArgs::annotate_types`
     Args,
@@ -162,25 +162,34 @@ pub fn roundtrip(p: Printer, f: Form, args: &IDLArgs, tys: &[Type], env: &TypeEn
         },
     };
     rep.transitions += 1;
+    // `annotate_types` consumes its receiver: hand the parsed arguments over instead of
+    // cloning them per round trip; for the error message the text is simply parsed again
+    let reparsed = |t: &str| -> String {
+        match catch(|| candid_parser::parse_idl_args(t)) {
+            Ok(Ok(a)) => clip(&dbg_text(&a)),
+            _ => "?".to_string(),
+        }
+    };
+    let mut parsed = Some(parsed);
     let annotated: IDLArgs = match f {
-        Form::Args => match catch(|| parsed.clone().annotate_types(true, env, tys)) {
+        Form::Args => match catch(|| parsed.take().unwrap().annotate_types(true, env, tys)) {
             Err(e) => {
                 fails.push((ANNOT_PANIC, format!("annotate_types panicked for text {:?}: {e}", clip(&t1))));
                 return Trip { text: Some(t1), fails };
             }
             Ok(Err(e)) => {
-                fails.push((ANNOT_ERROR, format!("annotate_types fails for text {:?} (parsed as {}): {e}", clip(&t1), clip(&dbg_text(&parsed)))));
+                fails.push((ANNOT_ERROR, format!("annotate_types fails for text {:?} (parsed as {}): {e}", clip(&t1), reparsed(&t1))));
                 return Trip { text: Some(t1), fails };
             }
             Ok(Ok(a)) => a,
         },
-        Form::Value => match catch(|| parsed.args[0].annotate_type(true, env, &tys[0])) {
+        Form::Value => match catch(|| parsed.as_ref().unwrap().args[0].annotate_type(true, env, &tys[0])) {
             Err(e) => {
                 fails.push((ANNOT_PANIC, format!("annotate_type panicked for text {:?}: {e}", clip(&t1))));
                 return Trip { text: Some(t1), fails };
             }
             Ok(Err(e)) => {
-                fails.push((ANNOT_ERROR, format!("annotate_type fails for text {:?} (parsed as {}): {e}", clip(&t1), clip(&dbg_text(&parsed)))));
+                fails.push((ANNOT_ERROR, format!("annotate_type fails for text {:?} (parsed as {}): {e}", clip(&t1), clip(&dbg_text(parsed.as_ref().unwrap())))));
                 return Trip { text: Some(t1), fails };
             }
             Ok(Ok(v)) => IDLArgs { args: vec![v] },
@@ -206,6 +215,24 @@ fn nontrivial_text(t: &str) -> bool {
     !t.is_ascii() || t.contains('\\') || t.contains('_')
 }
 
+thread_local! {
+    static OK_KEYS: std::cell::RefCell<std::collections::HashMap<(&'static str, Printer, Form), String>> = std::cell::RefCell::new(std::collections::HashMap::new());
+}
+
+/// `rep.outcome("<pos>:<printer>:<form>:ok")` without formatting a key per round trip
+fn ok_outcome(rep: &mut Report, pos: &'static str, p: Printer, f: Form) {
+    OK_KEYS.with(|m| {
+        let mut m = m.borrow_mut();
+        let k = m.entry((pos, p, f)).or_insert_with(|| format!("{}:{}:{}:ok", pos, p.name(), f.name()));
+        match rep.outcomes.get_mut(k.as_str()) {
+            Some(n) => *n += 1,
+            None => {
+                rep.outcomes.insert(k.clone(), 1);
+            }
+        }
+    });
+}
+
 /// All applicable modes of one case. A failing mode is executed a second time and must
 /// give the same failure classes.
 pub fn check(c: &Case, env: &TypeEnv, rep: &mut Report) -> Vec<Fail> {
@@ -221,7 +248,7 @@ pub fn check(c: &Case, env: &TypeEnv, rep: &mut Report) -> Vec<Fail> {
                 rep.nontrivial += 1;
             }
             if t.fails.is_empty() {
-                rep.outcome(&format!("{}:{}:{}:ok", c.pos, p.name(), f.name()));
+                ok_outcome(rep, c.pos, p, f);
                 continue;
             }
             let mut scratch = Report::new();
